@@ -2,12 +2,9 @@
    Definitions only; proofs are in Proofs/Varint.v. *)
 From Coq Require Import NArith List Bool.
 Import ListNotations.
+From PM Require Export Base.Wrap.
 Open Scope bool_scope. Open Scope N_scope.
 
-Definition w8  (x:N) := x mod 2^8.
-Definition w32 (x:N) := x mod 2^32.
-Definition w64 (x:N) := x mod 2^64.
-Definition shl64 (x n:N) := if n <? 64 then w64 (N.shiftl x n) else 0.
 
 (* binary.PutUvarint *)
 Fixpoint put_uvarint_f (fuel:nat) (v:N) : list N :=
